@@ -51,6 +51,11 @@ def catalog(tier="quick"):
     # episodes that end for two reasons at once: puzzles one move away from the goal with a time limit of one step (a random
     # move solves them ON the limit step now and then; the terminal key must still be a fresh one every time)
     c["RubiksCube.S1T1"] = lambda: _cube_s1(1)
+    # wrapped environments whose own extras already hold a "next_obs" entry: a user wrapper that reserves the slot with a
+    # placeholder, and an environment that is itself an AutoResetWrapper with next_obs_in_extras (on its LAST steps that entry
+    # is NOT the observation the step returns) - an outer wrapper must still report the true successor observation
+    c["Snake.ReservedNextObs"] = lambda: _reserved_next_obs(E.Snake(num_rows=4, num_cols=5, time_limit=tl))
+    c["Snake.InnerAutoReset"] = lambda: _inner_auto_reset(E.Snake(num_rows=4, num_cols=5, time_limit=tl))
     # a user-written environment whose bounded specs have one range per row (bounds broadcast along the trailing axis)
     c["Probe.RowBounded"] = lambda: _row_bounded()
     c["SlidingTilePuzzle.K1T1"] = lambda: _sliding_k1(1)
@@ -96,6 +101,35 @@ def _key_folded(env):
             return self._env.reset(jax.random.fold_in(key, 12345))
 
     return KeyFolded(env)
+
+
+def _reserved_next_obs(env):
+    import jax
+
+    from jumanji.wrappers import Wrapper
+
+    class ReservedNextObs(Wrapper):
+        def _tf(self, ts):
+            extras = dict(ts.extras or {})
+            extras["next_obs"] = jax.tree_util.tree_map(lambda x: x * 0, ts.observation)      # a placeholder of the right shape
+            extras["own_metric"] = ts.observation.step_count + 7
+            return ts.replace(extras=extras)
+
+        def reset(self, key):
+            s, ts = self._env.reset(key)
+            return s, self._tf(ts)
+
+        def step(self, state, action):
+            s, ts = self._env.step(state, action)
+            return s, self._tf(ts)
+
+    return ReservedNextObs(env)
+
+
+def _inner_auto_reset(env):
+    from jumanji.wrappers import AutoResetWrapper
+
+    return AutoResetWrapper(env, next_obs_in_extras=True)
 
 
 def _obs_shifted(env):
